@@ -158,9 +158,9 @@ func checkC15(c *Ctx, r *Report) {
 		r.cond(okd, "R1", fnKey(run)+":own-broker-connection", c.pos(run.Pos()), "the session function dials its own broker connection", "the session function does not dial a broker connection of its own")
 	}
 	// R2: shared data never written
+	sharedNames := c.sharedConfigTypes()
 	sharedStruct := func(t types.Type) bool {
-		s := typeStr(derefType(t))
-		return s == "gateway.handlerConfig" || s == "gateway.GatewayConfig"
+		return sharedNames[typeStr(derefType(t))]
 	}
 	nShared := 0
 	for _, f := range c.repoFuncs("gateway") {
@@ -243,12 +243,15 @@ func checkC15(c *Ctx, r *Report) {
 // assigned from, a configuration slice.
 func (c *Ctx) sharedSliceFields() []string {
 	set := map[string]bool{}
-	cfgT := c.ByPath[pkGateway].Types.Scope().Lookup("handlerConfig")
-	if cfgT != nil {
+	for tname := range c.sharedConfigTypes() {
+		cfgT := c.ByPath[pkGateway].Types.Scope().Lookup(strings.TrimPrefix(tname, "gateway."))
+		if cfgT == nil {
+			continue
+		}
 		if st, ok := cfgT.Type().Underlying().(*types.Struct); ok {
 			for i := 0; i < st.NumFields(); i++ {
 				if _, ok := st.Field(i).Type().Underlying().(*types.Slice); ok {
-					set["gateway.handlerConfig."+st.Field(i).Name()] = true
+					set[tname+"."+st.Field(i).Name()] = true
 				}
 			}
 		}
@@ -268,7 +271,7 @@ func (c *Ctx) sharedSliceFields() []string {
 				return
 			}
 			for _, o := range c.origins(s.Val) {
-				if len(o.Path) >= 1 && set["gateway.handlerConfig."+o.Path[len(o.Path)-1]] && strings.Contains(typeStr(o.RootType()), "gateway.") {
+				if len(o.Path) >= 1 && strings.Contains(typeStr(o.RootType()), "gateway.") && (set[typeStr(derefType(o.RootType()))+"."+o.Path[len(o.Path)-1]] || c.anySharedField(set, o.Path[len(o.Path)-1])) {
 					set[typeStr(derefType(fa.X.Type()))+"."+fieldName(fa.X.Type(), fa.Field)] = true
 				}
 			}
@@ -996,4 +999,44 @@ func pktTopicIDLoad(v ssa.Value) (string, bool) {
 // isFieldOfAny: like isFieldOf for a packets1 type given by name.
 func (c *Ctx) isFieldOfAny(tname string, path ...string) func(ssa.Value) bool {
 	return c.isFieldOf(pkPackets1, tname, path...)
+}
+
+// sharedConfigTypes: the configuration structs every session shares: the
+// exported GatewayConfig and every struct of package gateway that the gateway
+// builds ONCE, outside the accept loop, and hands to the handler constructor
+// (today handlerConfig) - found by allocation site, not by name.
+func (c *Ctx) sharedConfigTypes() map[string]bool {
+	out := map[string]bool{"gateway.GatewayConfig": true}
+	for _, f := range c.repoFuncs("gateway") {
+		hasAccept := false
+		allInstrs(f, func(i ssa.Instruction) {
+			if _, ok := i.(*ssa.Go); ok && inCycle(i.Block()) {
+				hasAccept = true
+			}
+		})
+		if !hasAccept {
+			continue
+		}
+		allInstrs(f, func(i ssa.Instruction) {
+			a, ok := i.(*ssa.Alloc)
+			if !ok || !a.Heap || inCycle(a.Block()) {
+				return
+			}
+			if st := structOf(a.Type()); st != nil {
+				if n := namedOf(derefType(a.Type())); n != nil && n.Obj().Pkg() != nil && n.Obj().Pkg().Path() == pkGateway {
+					out["gateway."+n.Obj().Name()] = true
+				}
+			}
+		})
+	}
+	return out
+}
+
+func (c *Ctx) anySharedField(set map[string]bool, field string) bool {
+	for k := range set {
+		if strings.HasSuffix(k, "."+field) {
+			return true
+		}
+	}
+	return false
 }
